@@ -106,6 +106,9 @@ def main(argv):
     known = known_findings(a.pid)
     cexdir = os.path.join(VERIF, 'evidence', 'cex')
     os.makedirs(cexdir, exist_ok=True)
+    for fn_ in os.listdir(cexdir):
+        if fn_.startswith(a.pid + '-'):
+            os.unlink(os.path.join(cexdir, fn_))
     new = 0
     seen_known = {}
     lines = []
